@@ -130,7 +130,7 @@ func (c *Ctx) role(name string) *ssa.Function {
 	case "sam.parseLine":
 		return c.calleeBySig(c.fn("formats/sam", "ReaderHeader"), "([]string)(*formats/sam.SAM,error)", 2)
 	case "sam.parseInts":
-		return c.calleeBySig(c.role("sam.parseLine"), "([]string,[]*int)(error)", 0)
+		return c.calleeBySig(c.role("sam.parseLine"), "([]string,[]*int)(error)", 2)
 	case "sam.parseTags":
 		return c.calleeBySig(c.role("sam.parseLine"), "([]string)(map[string]any,error)", 0)
 	case "sam.splitTag":
@@ -139,6 +139,8 @@ func (c *Ctx) role(name string) *ssa.Function {
 		return c.calleeBySig(c.fn("formats/sam", "(*SAM).Write"), "(map[string]interface{})([]string)", 0)
 	case "sam.tagToText":
 		return c.calleeBySig(c.role("sam.tagsToText"), "(string,interface{})(string)", 0)
+	case "align.charOrGap":
+		return c.calleeBySig(c.fn("align", "(SubstitutionMatrix).GoString"), "(byte)(string)", 0)
 	case "trie.keys":
 		return c.calleeBySig(c.fn("trie", "(*Trie).ForEach"), "(*trie.Trie)()([]byte)", 2)
 	}
@@ -204,3 +206,18 @@ func (c *Ctx) inModulePath(p string) bool { return p == modPath || strings.HasPr
 
 // relOfGlobal: package path of a global relative to the module.
 func relOfGlobal(g *ssa.Global) string { return relPkg(g.Pkg.Pkg.Path()) }
+
+// allRoles: the names role() knows.
+var allRoles = []string{"align.decideOnStep", "align.traceGlobal", "align.traceLocal", "fasta.read", "fastq.read", "bed.read", "bed.parseLine",
+	"newick.read", "newick.nextToken", "newick.writer", "newick.nameToText", "newick.nameFromText", "newick.quoted", "newick.traverse",
+	"sequtil.complement", "regions.cp", "regions.eventLess", "regions.keys", "smtext.singleChar", "sam.parseLine", "sam.parseInts",
+	"sam.parseTags", "sam.splitTag", "sam.tagsToText", "sam.tagToText", "trie.keys", "align.charOrGap"}
+
+// markRoles: calls to functions that rules identify by role are never rendered through their bodies.
+func (c *Ctx) markRoles() {
+	for _, name := range allRoles {
+		if f := c.role(name); f != nil {
+			symNoInline[f] = true
+		}
+	}
+}
